@@ -22,17 +22,24 @@ MODULE = 'PyTough.Props.C07'
 TARGETS = ['PyTough.Props.C07', 'drv_c05']
 THEOREMS = ['Props.C07.' + t for t in ['nav_view_eq_fresh', 'index_in_range', 'stale_cells_witness', 'next_bounds', 'prev_bounds',
                                     'negative_index_normalised', 'index_out_of_range', 'set_time_nearest', 'set_step_nearest',
-                                    'history_preserves_view']]
-LEVEL_TEXT = ('Proof: 10 Lean theorems about the navigation machine of the reader (first/last/next/prev, index/time/step setters, history), '
+                                    'history_preserves_view', 'file_load_sets_index', 'file_load_ignores_cursor_time_step',
+                                    'file_index_in_range', 'file_nav_view_eq_fresh']]
+LEVEL_TEXT = ('Proof: 14 Lean theorems about the navigation machine of the reader (first/last/next/prev, index/time/step setters, history), '
               'for every reader satisfying two stated hypotheses: after any sequence of successful actions the view equals that of a reader '
               'positioned directly at that index (nav_view_eq_fresh, with a counterexample showing the Covers hypothesis is needed); the index '
               'stays in range; next/prev report whether they moved and stop at the ends; negative indices count from the end, out-of-range ones '
               'are an IndexError that changes nothing; time/step setters select a nearest result (exact arithmetic). No sorry. Tied to /repo by '
               'running the same action sequences on the real t2listing and on the executable whole-file Lean model of the reader '
               '(index, moved flag, IndexError, view = fresh view) for every shipped listing, truncated copies and perturbed copies; the oracle '
-              'compares the real reader after every action with a freshly opened reader at that index.')
+              'compares the real reader after every action with a freshly opened reader at that index. '
+              'file_load_sets_index: for the whole-file model of every simulator family, set_index j leaves _index = j (read_tables and everything below it never assigns _index), '
+              'so LoadSetsIndex is now a theorem, not a per-file check. '
+              'file_load_ignores_cursor_time_step: what set_index j leaves does not depend on the previous file position, index, time or step, so Covers can fail only through table cells that are not overwritten. '
+              'file_index_in_range: for every file, with no per-file hypothesis, the index stays in range after any action sequence. '
+              'file_nav_view_eq_fresh: nav_view_eq_fresh for the whole-file model with Covers as the only remaining hypothesis. '
+              'Still not proved: Covers itself (that re-reading overwrites every cell of every table present at the first time) - it depends on the rows printed at each result time of the file.')
 LEVEL_NOTE = ('Trusted: Lean kernel (+propext, Classical.choice, Quot.sound); the hand-written whole-file model of t2listing (compared with the real reader '
-              'cell for cell on every run, C05); Covers and LoadSetsIndex are hypotheses of the theorems: Covers is evaluated on the model of every '
+              'cell for cell on every run, C05); Covers is a hypothesis of nav_view_eq_fresh (LoadSetsIndex is proved for the whole-file model): Covers is evaluated on the model of every '
               'shipped file by a sentinel test and reported in the evidence, not proved for the whole-file model; nearest-selection is proved over exact '
               'numbers (Rat/Int), the code computes |t_i - t| in doubles.')
 TECHNIQUE = L.TECHNIQUE
